@@ -14,6 +14,7 @@ import (
 	"fmt"
 	"math/rand"
 	"net/http"
+	"strings"
 	"sync"
 	"time"
 
@@ -85,6 +86,8 @@ type env struct {
 	dbPath string
 	loot   string
 	broken bool
+	// burstOps: harness-side operations (operator tasking) run together with a burst's requests
+	burstOps []func()
 }
 
 func (e *env) close() {
@@ -205,6 +208,11 @@ func build(sh shape, seed int64) (*env, error) {
 			var p demon.Pkg
 			p.I32(2).I32(0).I32(uint32(0x500 + k)).I64(64).WStr(fmt.Sprintf("C:\\loot\\file%d.bin", k))
 			e.send(s, demon.Callback{Cmd: 15, ReqID: req, Body: p.B})
+			// and an empty file (announced size 0) that stays open
+			req = e.take(s)
+			var q demon.Pkg
+			q.I32(2).I32(0).I32(uint32(0x600 + k)).I64(0).WStr(fmt.Sprintf("C:\\loot\\empty%d.bin", k))
+			e.send(s, demon.Callback{Cmd: 15, ReqID: req, Body: q.B})
 		}
 	}
 	return e, nil
@@ -456,7 +464,21 @@ func (e *env) genSpecial() ([]byte, string) {
 	cmd := uint32(0)
 	name := ""
 	w := func(str string) { p.WStr(str) }
-	switch e.rng.Intn(14) {
+	switch e.rng.Intn(16) {
+	case 13, 14: // transfer list / stop / resume / remove naming the downloads that are open (sizes 0, 1, 64, ...)
+		cmd, name = 2530, "transfer.open-ids"
+		sub := uint32(e.rng.Intn(4))
+		p.I32(sub)
+		fid := func() uint32 {
+			return []uint32{0x500, 0x501, 0x502, 0x503, 0x600, 0x601, 0x602, 0x700}[e.rng.Intn(8)]
+		}
+		if sub == 0 {
+			for k := 0; k < 1+e.rng.Intn(4); k++ {
+				p.I32(fid()).I32([]uint32{0, 1, 64, 0x7fffffff, 0xffffffff}[e.rng.Intn(5)]).I32(uint32(1 + e.rng.Intn(4)))
+			}
+		} else {
+			p.I32(uint32(e.rng.Intn(2))).I32(fid())
+		}
 	case 0: // list-only dir listing with empty / short names
 		cmd, name = 15, "fs.dir.listonly"
 		p.I32(1).Bool(e.rng.Intn(2) == 0).Bool(true)
@@ -481,7 +503,7 @@ func (e *env) genSpecial() ([]byte, string) {
 		p.I32(2).I32(mode).I32(uint32(0x500 + e.rng.Intn(4)))
 		switch mode {
 		case 0:
-			p.I64(e.rng.Uint64())
+			p.I64([]uint64{0, 1, e.rng.Uint64()}[e.rng.Intn(3)])
 			w([]string{"", "a.bin", "..\\..\\x", "C:\\a\\b\\c.txt"}[e.rng.Intn(4)])
 		case 1:
 			p.Bytes(randBytes(e.rng, e.rng.Intn(64)))
@@ -644,6 +666,30 @@ func (e *env) burst() (bodies [][]byte, kind string) {
 	if s == nil {
 		return nil, ""
 	}
+	e.burstOps = nil
+	if e.sh.Links != 0 && len(e.sims) >= 2 && !e.cyclic() && e.rng.Intn(3) == 0 {
+		// operators task a linked agent (its queue lock, then its parents') while the root
+		// checks in and walks the queued pivot jobs (the root's queue lock): two lock orders
+		// meet only here
+		kind = "burst:task-linked-agent-vs-root-checkin"
+		root := e.sims[0]
+		// a job for every linked agent is waiting at the root already, so that the first of the
+		// check-ins has pivot jobs in its batch
+		for _, child := range e.sims[1:] {
+			e.nextID++
+			e.pool[child.ID] = append(e.pool[child.ID], e.nextID)
+			rig.TaskSimple(e.r.TS, child.Hex(), e.nextID)
+		}
+		for k := 0; k < 4; k++ {
+			bodies = append(bodies, demon.Checkin(root.ID, root.Key, root.IV))
+			child := e.sims[1+e.rng.Intn(len(e.sims)-1)]
+			e.nextID++
+			id := e.nextID
+			e.pool[child.ID] = append(e.pool[child.ID], id)
+			e.burstOps = append(e.burstOps, func() { rig.TaskSimple(e.r.TS, child.Hex(), id) })
+		}
+		return bodies, kind
+	}
 	id := e.rng.Uint32()
 	mk := func(sub uint32, vals ...uint32) []byte {
 		var p demon.Pkg
@@ -682,9 +728,22 @@ func (e *env) execBurst(bodies [][]byte, kind string) *verdict {
 	// them are between "looked the id up" and "changed the table" at the same time
 	verifhook.Set("agent.table.lock", func() { time.Sleep(200 * time.Microsecond) })
 	defer verifhook.Set("agent.table.lock", nil)
+	if len(e.burstOps) > 0 {
+		// the same for the queue: a check-in pauses just before it takes its batch off
+		verifhook.Set("queue.get.writeback", func() { time.Sleep(2 * time.Millisecond) })
+		defer verifhook.Set("queue.get.writeback", nil)
+	}
 	var wg sync.WaitGroup
-	res := make([]rig.Resp, len(bodies))
 	start := make(chan struct{})
+	for _, op := range e.burstOps {
+		wg.Add(1)
+		go func(op func()) {
+			defer wg.Done()
+			<-start
+			op()
+		}(op)
+	}
+	res := make([]rig.Resp, len(bodies))
 	for i := range bodies {
 		wg.Add(1)
 		go func(i int) {
@@ -892,6 +951,7 @@ func run(c *lib.Ctx) {
 				c.Cur("burst", wb)
 				c.Eval()
 				c.Observe("gen.burst", 1)
+				c.Observe(kind, 1)
 				if v := e.execBurst(bodies, kind); v != nil {
 					c.Violation(v.sig, v.what, bw)
 					e.close()
@@ -912,6 +972,9 @@ func run(c *lib.Ctx) {
 				c.DistinctBytes(body)
 			}
 			c.Observe("gen."+genClass(rc.Gen), 1)
+			if strings.HasPrefix(rc.Gen, "special:") {
+				c.Observe(rc.Gen, 1)
+			}
 			c.SampleSome(5000, func() any { return map[string]any{"shape": sh, "gen": rc.Gen, "body": clip(rc.Body, 160)} })
 			v := e.exec(rc, i%64 == 0)
 			if v != nil {
